@@ -82,6 +82,17 @@ func (pk PublicKey) Enc(m *saferith.Int) (*Ciphertext, *saferith.Nat) {
 	return pk.EncWithNonce(m, nonce), nonce
 }
 
+// ValidatePlaintext returns true if m is in the range [-(N-1)/2, …, (N-1)/2] of messages that Enc accepts.
+func (pk PublicKey) ValidatePlaintext(m *saferith.Int) bool {
+	if m == nil {
+		return false
+	}
+	nHalf := new(saferith.Nat).SetNat(pk.nNat)
+	nHalf.Rsh(nHalf, 1, -1)
+	gt, _, _ := m.Abs().Cmp(nHalf)
+	return gt != 1
+}
+
 // EncWithNonce returns the encryption of m under the public key pk.
 // The nonce is not returned.
 //
